@@ -102,9 +102,33 @@ def gen_boundary_case(rng):
                 fast=[rng.random() < 0.3], boundary=target)
 
 
+def gen_one_direction_case(rng):
+    """several groups of one master whose FMMU terminals all have outputs
+    only (digital output terminals), or inputs only, next to a mixed one"""
+    terms, groups = [], []
+    for g in range(rng.randint(2, 4)):
+        kind = rng.choice(["out", "out", "in", "mixed"])
+        members = []
+        for _ in range(rng.randint(1, 3)):
+            i = len(terms)
+            isz = 0 if kind == "out" else rng.choice([1, 2, 6])
+            osz = 0 if kind == "in" else rng.choice([1, 2, 4])
+            terms.append(dict(pos=10 + i, isz=isz, osz=osz, fmmu=True,
+                              rw=kind != "in", sharers=[],
+                              sharers_first=False, aero=False,
+                              decl_in=None, decl_out=None))
+            members.append(i)
+        groups.append(members)
+    return dict(terms=terms, groups=groups,
+                fast=[rng.random() < 0.3 for _ in groups], span=False,
+                logical_base=rng.choice([0, 0, 7, 0x800]))
+
+
 def gen_case(rng):
     if rng.random() < 0.15:
         return gen_boundary_case(rng)
+    if rng.random() < 0.1:
+        return gen_one_direction_case(rng)
     nt = rng.randint(1, 12)
     big = rng.random() < 0.12
     terms = []
